@@ -333,4 +333,44 @@ theorem predC05_model (sc : Scenario) (s : State) (a : Action) (u : Rat) (hwf : 
     · simp [hnoop hno]
     · simp [hno]
 
+
+/-! ### C09: observation rows are masked views in the documented layout -/
+
+theorem mem_allMasks (m : Mask) : m ∈ allMasks := by
+  obtain ⟨a, b, c, d, e, f, g, h, i, j⟩ := m
+  simp only [allMasks, List.mem_flatMap, List.mem_map, List.mem_cons, List.not_mem_nil, or_false]
+  refine ⟨a, ?_, b, ?_, c, ?_, d, ?_, e, ?_, f, ?_, g, ?_, h, ?_, i, ?_, j, ?_, rfl⟩
+  all_goals (first | (cases a <;> simp) | (cases b <;> simp) | (cases c <;> simp) | (cases d <;> simp)
+                   | (cases e <;> simp) | (cases f <;> simp) | (cases g <;> simp) | (cases h <;> simp)
+                   | (cases i <;> simp) | (cases j <;> simp))
+
+theorem rowConforms_observeRow (L : Layout) (r : Row) (m : Mask) : rowConforms L r (observeRow L r m) = true := by
+  unfold rowConforms
+  rw [List.any_eq_true]
+  exact ⟨m, mem_allMasks m, by simp⟩
+
+def fullMask : Mask :=
+  { address := true, comp := true, reach := true, disc := true, access := true, value := true, dvalue := true, svc := true, proc := true, os := true }
+
+theorem encodeRow_eq_observeRow (L : Layout) (r : Row) : encodeRow L r = observeRow L r fullMask := by
+  simp [encodeRow, observeRow, fullMask]
+
+theorem zip_map_append_all {α β} (l : List α) (f : α → β) (ys : List β) (p : α × β → Bool) :
+    ((l.zip (l.map f ++ ys)).all p) = l.all (fun x => p (x, f x)) := by
+  induction l with
+  | nil => simp
+  | cons x xs ih => simp [ih]
+
+/-- C09 predicate on the model -/
+theorem predC09_model (sc : Scenario) (s : State) (a : Action) (u : Rat) :
+    predC09 sc (modelTrans sc s a u) = true := by
+  simp only [predC09, modelTrans, observe, Bool.and_eq_true, if_true, Bool.false_eq_true, if_false]
+  refine ⟨⟨⟨by simp, ?_⟩, by simp⟩, ⟨⟨by simp, ?_⟩, by simp⟩⟩
+  · rw [zip_map_append_all, List.all_eq_true]
+    intro r _
+    rw [encodeRow_eq_observeRow]; exact rowConforms_observeRow _ _ _
+  · rw [zip_map_append_all, List.all_eq_true]
+    intro r _
+    exact rowConforms_observeRow _ _ _
+
 end NASim
